@@ -32,6 +32,7 @@ type Program struct {
 	MaxTicks int      `json:"maxticks,omitempty"`
 	TickHold bool     `json:"tickhold,omitempty"` // ticks fire only after the op "ticks"
 	Hold     string   `json:"hold,omitempty"`     // breakpoint "A|B" (verifrt.Config.Hold): a directed schedule for a check-then-act window
+	AckHold   bool    `json:"ackhold,omitempty"`   // Acknowledge of the adapters blocks until the op "ackopen"
 	NoIDBatch bool    `json:"noidbatch,omitempty"` // batch items k with k%3 == 1 are submitted without an ID
 	PCT      bool     `json:"pct,omitempty"`      // prefer priority-based schedules (few preemptions at random depths)
 	TickBias int      `json:"tickbias,omitempty"`
@@ -97,6 +98,7 @@ type env struct {
 	groups   map[int]groupHandle
 	released map[int]bool
 	relAll   bool
+	ackOpen  bool
 	cid      int
 	cancel   context.CancelFunc
 	adapters []*adapter
@@ -349,6 +351,9 @@ func (e *env) newAdapter(prio bool) *adapter {
 	}
 	a := newAdapter(len(e.adapters), prio, e.p.Faults)
 	a.crashAt = e.p.CrashAt
+	if e.p.AckHold {
+		a.hold = func() bool { return e.ackOpen }
+	}
 	e.adapters = append(e.adapters, a)
 	if e.shared != nil {
 		*e.shared = append(*e.shared, a)
@@ -663,6 +668,11 @@ func (e *env) exec(op Op) {
 		rt.Yield()
 	case "waitidle":
 		rt.WaitIdle()
+		rt.Log("C", "0", "rest") // nothing else can run at this moment
+	case "ackopen":
+		rt.Yield()
+		e.ackOpen = true
+		rt.Log("C", "0", "ackopen")
 	case "ticks":
 		rt.AllowTicks()
 	case "advance":
